@@ -113,6 +113,8 @@ def body(ctx, conv, nk, positive, order, dpos, two_depths, via, holes):
         variables['sed'] = (dims_sed, sed)
         coords['zsed'] = (('k2',), z2, {'positive': positive})
         depth_names.append('zsed')
+    thick = make_var('thick', ('k',) + tuple(sdims))
+    coords['thickness'] = (('k',) + tuple(sdims), thick, {'long_name': 'layer thickness'})
     ds = base.assign({n: xarray.Variable(*v) for n, v in variables.items()}).assign_coords(
         {n: (v if isinstance(v, xarray.Variable) else xarray.Variable(*v)) for n, v in coords.items()})
     ctx.note('config', dict(conv=conv, nk=nk, positive=positive, order=order, dpos=dpos, two=two_depths))
@@ -160,7 +162,10 @@ def body(ctx, conv, nk, positive, order, dpos, two_depths, via, holes):
                 oks.append(Implies(is_floor, same(got, v)))
         return And(*oks)
 
-    name_of = {id(temp): 'temp', id(salt): 'salt'}
+    name_of = {id(temp): 'temp', id(salt): 'salt', id(thick): 'thickness'}
+    ctx.check('thickness' in out.variables, 'a coordinate that varies along the depth dimension and in space is reduced, not dropped')
+    if 'thickness' in out.variables:
+        ctx.check(expect_floor(thick, ('k',) + tuple(sdims), 'k', flags, phys, nk), 'thickness: coordinate reduced to the deepest layer that holds data')
     ctx.check(expect_floor(temp, dims_temp, 'k', flags, phys, nk), 'temp: deepest layer that holds data, at every location and time')
     ctx.check(expect_floor(salt, dims_salt, 'k', flags, phys, nk), 'salt: deepest layer that holds data')
     if two_depths and two_depths != 'same_dim':
